@@ -17,11 +17,12 @@ import Qats.Driver.ReadBind
 import Qats.Driver.Export
 import Qats.Driver.Stats
 import Qats.Driver.Smooth
+import Qats.Driver.Moments
 /-! All line-protocol handlers (core Lean only; imported by `Driver.lean`). -/
 namespace Qats.Driver
 
 def handlers : List (List String → Option String) :=
-  [Rainflow.handle, FindReversals.handle, Qats.Gen.handleGen, SN.handle, Motion.handle, Dist.handle, Rebin.handle, Peaks.handle, Pipeline.handle, Names.handle, Ownership.handle, Dtg.handle, Welch.handle, Filter.handle, Gui.handle, ReadBind.handle, Export.handle, Stats.handle, Smooth.handle]
+  [Rainflow.handle, FindReversals.handle, Qats.Gen.handleGen, SN.handle, Motion.handle, Dist.handle, Rebin.handle, Peaks.handle, Pipeline.handle, Names.handle, Ownership.handle, Dtg.handle, Welch.handle, Filter.handle, Gui.handle, ReadBind.handle, Export.handle, Stats.handle, Smooth.handle, Moments.handle]
 
 def dispatch (toks : List String) : String :=
   match handlers.findSome? (fun h => h toks) with
